@@ -161,6 +161,9 @@ def observe(c):
   for v in variants(c['price'], R, n):
     p = tg.py_price(v, c.get('pform', 'nd'))
     cp = fr(core.maybe_stale(c, d.cost, s, p))
+    # cost(s,p) - cost(s,0) is computed from two floats: it cannot resolve less than a few units in the last place of those
+    if 32 * np.finfo(float).eps * max(abs(float(cp)), abs(float(c0))) > 1e-9 * (1 + abs(float(cp - c0))):
+      raise core.SkipCase('price part below the float resolution of the cost')
     gp = fr(np.array(core.maybe_stale(c, d.deriv, s, p)).reshape(R, n))
     hp = None
     if c['hess']:
